@@ -15,6 +15,7 @@ ENGINES = {
     "C03": ("eng_asm", "run"),
     "C04": ("eng_machine", "run"),
     "C05": ("eng_host", "run"),
+    "C06": ("eng_c06", "run"),
     "C07": ("eng_nv", "run"),
     "C12": ("eng_epr", "run"),
     "C13": ("eng_ctrl", "run"),
